@@ -403,6 +403,9 @@ func TestScalar(t *testing.T) {
 }
 
 func TestBytesExhaustive(t *testing.T) {
+	if pbt.Shard != 0 && pbt.ReplayPath == "" {
+		t.Skip("fixed enumeration: shard 0 only")
+	}
 	pbt.Enumerate(t, "bytes-exhaustive",
 		"every 0-, 1- and 2-byte bytes value, every 3-byte value over 20 escape-relevant bytes, both formats; also as string kind; non-trivial = needs an escape",
 		true,
@@ -444,6 +447,9 @@ func TestBytesExhaustive(t *testing.T) {
 }
 
 func TestIntBoundaries(t *testing.T) {
+	if pbt.Shard != 0 && pbt.ReplayPath == "" {
+		t.Skip("fixed enumeration: shard 0 only")
+	}
 	pbt.Enumerate(t, "int-boundaries",
 		"every integer kind x both formats x every 2^k-1, 2^k, 2^k+1, -(2^k)-1, -(2^k), -(2^k)+1 (k = 0..64, truncated to the kind), powers of ten +-1; bools; non-trivial = >= 8 significant digits",
 		true,
@@ -1178,6 +1184,9 @@ func checkDesc(c descCase) error {
 		}
 		tg := tag.Marshal(fs1[i], "c39.E")
 		tfd := tag.Unmarshal(tg, goTypes[k], evs)
+		if !tfd.HasDefault() {
+			return fmt.Errorf("struct tag %q (kind %v): default lost (HasDefault() = false after tag.Unmarshal)", tg, k)
+		}
 		ts := snap(tfd)
 		if k == protoreflect.EnumKind {
 			// a Go tag carries the number only: aliases resolve to the first value of that number
